@@ -234,6 +234,20 @@ pub fn note_access(ptr: usize, len: usize, write: bool, what: &str) {
         });
     }
 }
+/// Called from SimAlloc's alloc observer: the allocating task initialises the block with
+/// plain writes (e.g. `Box::new(Shared { .. })`); every later use by another task — also an
+/// atomic one — must be ordered after them.
+#[cfg(feature = "simalloc")]
+pub fn on_alloc(b: alloc::BlockInfo) {
+    let _ = HB.try_with(|h| {
+        if let Ok(mut h) = h.try_borrow_mut() {
+            if h.enabled {
+                let t = h.cur;
+                h.access(t, b.id, 0, b.size.max(1), true, false, "initialisation");
+            }
+        }
+    });
+}
 /// Called from SimAlloc's dealloc observer.
 #[cfg(feature = "simalloc")]
 pub fn on_dealloc(b: alloc::BlockInfo) {
@@ -300,7 +314,9 @@ fn record(addr: usize, loc: u64, kind: &'static str, acq: bool, rel: bool, is_st
             // recorded as a read-class access (conflicts only with deallocation / reuse),
             // *before* the release part so the released clock covers it
             let lo = addr - b.user;
-            h.access(t, b.id, lo, lo + 8, false, false, "atomic operation");
+            // an atomic operation never races with other atomics, but it does race with a plain
+            // write (the initialisation of its control block) that is not ordered before it
+            h.access(t, b.id, lo, lo + 8, false, true, "atomic operation on the control block");
         }
         if is_store {
             if rel {
